@@ -259,6 +259,29 @@ def local_resolver(fn_node: ast.AST):
     return resolve
 
 
+def nearest_resolver(fn_node: ast.AST, before: ast.AST):
+    """resolve(Name) -> [the value of the assignment to that name that is closest before `before`, by position]: the definition
+    that reaches a use in straight-line code.  Names with no earlier assignment resolve to all their assignments (as local_resolver)."""
+    line = (getattr(before, "lineno", 0), getattr(before, "col_offset", 0))
+    table: dict = {}
+    for n in ast.walk(fn_node):
+        tg = None
+        if isinstance(n, ast.Assign):
+            tg = [t for t in n.targets if isinstance(t, ast.Name)]
+        elif isinstance(n, ast.AnnAssign) and isinstance(n.target, ast.Name) and n.value is not None:
+            tg = [n.target]
+        for t in tg or []:
+            table.setdefault(t.id, []).append(((n.lineno, n.col_offset), n.value))
+
+    def resolve(name: ast.Name):
+        defs = table.get(name.id, [])
+        earlier = [d for d in defs if d[0] < line]
+        if earlier:
+            return [max(earlier, key=lambda d: d[0])[1]]
+        return [d[1] for d in defs]
+    return resolve
+
+
 # ------------------------------------------------------------------ representative points
 def eval_points(e: ast.AST, binding: list):
     """Three-valued value of a comparison expression when designated terms take concrete
